@@ -195,7 +195,7 @@ def m_values(tier):
     return list(range(1, 701)) + [1000, 1024, 2048, 4096, 5000]
 
 
-def msweep_medium(ctx, n1, n2, tier):
+def msweep_medium(ctx, n1, n2, tier, part=None):
     import persim
 
     A = [[p[0] - 6.0, p[1] - 6.0] for p in medium_diagram(n1, 0, False)]
@@ -203,7 +203,10 @@ def msweep_medium(ctx, n1, n2, tier):
     a, b = farr(A), farr(B)
     sa, sb = a.tobytes(), b.tobytes()
     t = tol_of(A, B)
-    for M in m_values(tier):
+    ms = m_values(tier)
+    if part is not None:
+        ms = ms[part[0]::part[1]]          # (the sweep is split into interleaved parts, one case each)
+    for M in ms:
         ctx.state(("medium-M", n1, n2, M))
         v = ctx.call(persim.sliced_wasserstein, a, b, M=M)
         ref = OS.sliced_wasserstein_np(A, B, M)
@@ -220,7 +223,7 @@ def msweep_medium(ctx, n1, n2, tier):
 def run_case(case, ctx):
     """Replay entry: one pair, or one triple."""
     if case["kind"] == "medium-M":
-        return msweep_medium(ctx, case["n1"], case["n2"], case.get("tier", ctx.tier))
+        return msweep_medium(ctx, case["n1"], case["n2"], case.get("tier", ctx.tier), case.get("part"))
     if case["kind"] == "medium":
         return medium_pair(ctx, case["A"], case["B"])
     if case["kind"] == "msweep":
@@ -267,10 +270,12 @@ def run_shard(ctx):
             continue
         case = {"kind": "msweep", "A": cover[a], "B": cover[b], "m_hi": m_hi}
         ctx.run_case(_M, case, fn=lambda c, cx: msweep(cx, c["A"], c["B"], c["m_hi"]))
-    for jx, (n1, n2) in enumerate(MED_SIZES):
+    nparts = 1 if ctx.tier == "quick" else 8
+    mm = [(n1, n2, k) for (n1, n2) in MED_SIZES for k in range(nparts)]
+    for jx, (n1, n2, k) in enumerate(mm):
         if (jx + 5) % ctx.nshards != ctx.shard:
             continue
-        ctx.run_case(_M, {"kind": "medium-M", "n1": n1, "n2": n2, "tier": ctx.tier})
+        ctx.run_case(_M, {"kind": "medium-M", "n1": n1, "n2": n2, "tier": ctx.tier, "part": [k, nparts]})
     # medium diagrams (6..14 points, unequal sizes, generic and lattice-rounded)
     med = [(n, k, lat) for lat in (True, False) for n in ((6, 9, 14) if ctx.tier == "quick" else (6, 7, 9, 14, 25)) for k in range(2)]
     mjobs = [(a, b) for a in range(len(med)) for b in range(len(med))]
